@@ -44,6 +44,7 @@ func CreatePropellerUnits(
 		units[i] = Unit{
 			CommitteeID: *committeeID,
 			Publisher:   publisherID,
+			Nonce:       nonce,
 			MessageRoot: messageRoot,
 			MerkleProof: merkleTree[i],
 			Signature:   signature,
